@@ -345,6 +345,13 @@ class SimSocket:
         self.s.sev("recv", self.conn, self.side, n, k)
         return out
 
+    def recv_into(self, buffer, nbytes=0, flags=0):
+        mv = memoryview(buffer).cast("B")
+        n = nbytes or len(mv)
+        data = self.recv(n, flags)
+        mv[:len(data)] = data
+        return len(data)
+
     def send(self, data, flags=0):
         if self.closed:
             raise OSError(errno.EBADF, "Bad file descriptor")
@@ -383,7 +390,8 @@ class SimSocket:
     def shutdown(self, how):
         if self.closed:
             raise OSError(errno.EBADF, "Bad file descriptor")
-        if self.peer is None:
+        if self.peer is None or self.reset:
+            # also after the peer reset the connection: the socket is no longer connected (Linux: ENOTCONN)
             raise OSError(errno.ENOTCONN, "Transport endpoint is not connected")
         if how in (rsock.SHUT_WR, rsock.SHUT_RDWR) and not self.shut_wr:
             self.shut_wr = True
